@@ -658,7 +658,11 @@ pub struct GenOpts {
 }
 
 pub fn op_strategy(o: GenOpts) -> impl Strategy<Value = Op> {
-    let mut chars = vec!['a', 'b', 'g', 'e', 't', 'x', 'h', 'l', 'p', 's', ' ', ' ', '-', '-', 'é', 'Ж', 'г', '₿', '𝄞', '1', '5'];
+    // letters, blanks, dashes, and width-1 characters whose encodings sit on the boundaries of each UTF-8 length
+    // (lead bytes C2, DF, E0, E1, EF, F0, F4)
+    let mut chars = vec![
+        'a', 'b', 'g', 'e', 't', 'x', 'h', 'l', 'p', 's', ' ', ' ', '-', '-', 'é', 'Ж', 'г', '₿', '𝄞', '1', '5', '¡', 'ߪ', 'ࠀ', 'ก', 'က', '\u{fffd}', '𐀀', '\u{10fffd}',
+    ];
     if o.quotes {
         chars.extend(['"', '"', '\\']);
     }
